@@ -36,22 +36,8 @@ def _one(pattern, text, what, flags=re.S):
     return ms[0]
 
 
-def _fn_body(src, name, containing=None):
-    ms = list(re.finditer(r"\bfn\s+" + name + r"\b", src))
-    if containing is not None:
-        # several functions of that name: the one whose body mentions `containing`
-        cands = []
-        for m0 in ms:
-            b, l = _fn_body(src[m0.start():], name)
-            if containing in b:
-                cands.append((b, l + src[:m0.start()].count("\n")))
-        if len(cands) != 1:
-            raise ValueError("C15 generate: expected exactly one fn %s containing `%s`, found %d" % (name, containing, len(cands)))
-        return cands[0]
-    if len(ms) != 1:
-        raise ValueError("C15 generate: expected exactly one match for fn %s, found %d" % (name, len(ms)))
-    m = ms[0]
-    i = src.index("{", m.end())
+def _braces(src, start):
+    i = src.index("{", start)
     depth = 0
     for j in range(i, len(src)):
         if src[j] == "{":
@@ -60,7 +46,18 @@ def _fn_body(src, name, containing=None):
             depth -= 1
             if depth == 0:
                 return src[i:j + 1], src[:i].count("\n") + 1
-    raise ValueError("C15 generate: unbalanced braces in fn " + name)
+    raise ValueError("C15 generate: unbalanced braces")
+
+
+def _fn_body(src, name, containing=None):
+    """body and first line of `fn name`; if several functions have that name, the one whose body
+    mentions `containing`"""
+    cands = [_braces(src, m.end()) for m in re.finditer(r"\bfn\s+" + name + r"\b", src)]
+    if containing is not None:
+        cands = [c for c in cands if containing in c[0]]
+    if len(cands) != 1:
+        raise ValueError("C15 generate: expected exactly one fn %s%s, found %d" % (name, " containing `%s`" % containing if containing else "", len(cands)))
+    return cands[0]
 
 
 def _arr32(src, name):
